@@ -36,3 +36,26 @@ package tcp
 //@   entry row record:      [call DecodeLayers(s.parser, data, _) as (e) ; call pktFilter(bind_t) as (ok) ; call String(s.rcvIP.SrcIP) as (ips) ; call pktFlags(bind_t2) as (fl) ; call Put(s.results, bind_x)]
 //@                             when e == nil && tcpchain(s.rcvDecoded) && ok && ret == nil && isptr(x, ScanResult) && fresh(asptr(x, ScanResult))
 //@                               && asptr(x, ScanResult).IP == ips && asptr(x, ScanResult).Port == s.rcvTCP.SrcPort && asptr(x, ScanResult).Flags == fl && asptr(x, ScanResult).ScanType == s.scanType -> exit
+
+// ---------------------------------------------------------------------------------------------
+// C03: capture filter text. The filter is the concatenation, in this order, of: "tcp"; if a subnet is given
+// " and ip src net " + subnet; if port ranges are given " and (" + join(" or ", "src portrange S-E" for each range
+// in order, S/E = that range's own bounds) + ")". The SYN variant appends " and tcp[13] == 18".
+//@ func BPFFilter
+//@   props C03
+//@   observe (*strings.Builder).WriteString, (*strings.Builder).WriteRune, (*strings.Builder).String, (*net.IPNet).String, fmt.Sprintf, strings.Join
+//@   entry row bare:    [call WriteString(_, "tcp") ; call String(_) as (res)] when r.DstSubnet == nil && len(r.Ports) == 0 && ret0 == res && ret1 == 1518 -> exit
+//@   entry row net:     [call WriteString(_, "tcp") ; call WriteString(_, " and ip src net ") ; call String(r.DstSubnet) as (ns) ; call WriteString(_, ns) ; call String(_) as (res)]
+//@                         when r.DstSubnet != nil && len(r.Ports) == 0 && ret0 == res && ret1 == 1518 -> exit
+//@   entry row ports:   [call WriteString(_, "tcp") ; call WriteString(_, " and (")] when r.DstSubnet == nil && len(r.Ports) > 0 -> loop 0
+//@   entry row netports: [call WriteString(_, "tcp") ; call WriteString(_, " and ip src net ") ; call String(r.DstSubnet) as (ns) ; call WriteString(_, ns) ; call WriteString(_, " and (")]
+//@                         when r.DstSubnet != nil && len(r.Ports) > 0 -> loop 0
+//@   loop 0 row range:  [call fmt.Sprintf("src portrange %d-%d", bind_a) as (s)]
+//@                         when len(a) == 2 && astype(a[0], uint16) == pr.StartPort && astype(a[1], uint16) == pr.EndPort
+//@                           && len(ranges) == len(pre(ranges)) + 1 && ranges[len(pre(ranges))] == s
+//@                           && (forall k int :: 0 <= k && k < len(pre(ranges)) ==> ranges[k] == pre(ranges[k])) -> continue
+//@   loop 0 row close:  [call strings.Join(ranges, " or ") as (j) ; call WriteString(_, j) ; call WriteRune(_, 41) ; call String(_) as (res)] when ret0 == res && ret1 == 1518 -> exit
+//@ func SYNACKBPFFilter
+//@   props C03
+//@   observe BPFFilter
+//@   entry row synack: [call BPFFilter(r) as (f, n)] when ret0 == strcat(f, " and tcp[13] == 18") && ret1 == n -> exit
